@@ -310,6 +310,22 @@ func genRef(r *Rand, p *Plan, tier string, focus string) {
 			}
 			scripts = append(scripts, s)
 		}
+		if focus == "C19" && !wrongKey && len(scripts) >= 2 && r.Chance(25) {
+			// a connection that starts out right (also with the single-connect flag, also in
+			// the clear) and later carries a packet obfuscated with another key
+			k := 1 + r.Intn(len(scripts)-1)
+			scripts[k].Pkts[0].Key = []byte(r.token("W"))
+			if r.Chance(50) {
+				for _, pk := range scripts[0].Pkts {
+					pk.Flags |= 4
+				}
+			}
+			if r.Chance(30) {
+				for _, pk := range scripts[0].Pkts {
+					pk.Flags |= 1
+				}
+			}
+		}
 		cs.Ops = Interleave(r, scripts, r.Chance(30))
 		if focus == "C07" && r.Chance(12) {
 			// a used sequence number replayed inside a multi-packet login
